@@ -315,6 +315,9 @@ class Interpreter(BaseInterpreter[TContext, TEvent]):
         #    and pop itself from `self._actors` — mutating the dict mid-loop
         #    and raising "dictionary changed size during iteration".
         for actor in list(self._actors.values()):
+            # 🌐 The registry lives on the root: a stopped actor's children
+            #    would otherwise stay addressable by systemId forever.
+            self._unregister_from_system(actor)
             await actor.stop()
         self._actors.clear()
 
